@@ -845,6 +845,10 @@ func runC04(c *core.Ctx) {
 					vt    *world.T // declared type of $v (prepared twins need a valid warm-up value of it); nil = no twin
 					prep  bool     // resolve the parsed executable once with a valid warm-up value first, then with vars
 				}
+				// by name: "warm-root+..." = the root has already served a request that supplied a valid literal for this very
+				// argument; "...argument-omitted" = the argument is not written at all (must be refused where the type is non-null)
+				isWarm := func(d delivery) bool { return strings.HasPrefix(d.name, "warm-root+") }
+				isOmit := func(d delivery) bool { return strings.HasSuffix(d.name, "argument-omitted") }
 				var dels []delivery
 				lit := v.Literal()
 				dels = append(dels, delivery{"literal", fmt.Sprintf("{ %s(x: %s) }", field, lit), nil, true, nil, false})
@@ -929,6 +933,12 @@ func runC04(c *core.Ctx) {
 				if lt := stripNN(t); lt.K == world.TList && v.K == cvList && len(v.L) == 2 && v.L[1].K == cvNull && v.L[0].K != cvNull && v.L[0].K != cvList && v.L[0].K != cvObj {
 					dels = append(dels, delivery{"unset-variable-in-list-literal", fmt.Sprintf("query Q($v: %s) { %s(x: [%s, $v]) }", stripNN(lt.Of), field, v.L[0].Literal()), nil, true, stripNN(lt.Of), false})
 				}
+				// the argument left out altogether (once per type), and the same on a root that has just served a valid request for it
+				if v.K == cvNull {
+					dels = append(dels, delivery{name: "argument-omitted", query: fmt.Sprintf("{ %s }", field), ok: true})
+					dels = append(dels, delivery{name: "warm-root+argument-omitted", query: fmt.Sprintf("{ %s }", field), ok: true})
+				}
+				dels = append(dels, delivery{name: "warm-root+literal", query: fmt.Sprintf("{ %s(x: %s) }", field, lit), ok: true})
 				// prepared twins: the same request as a parsed executable that was already resolved once with a valid value
 				for _, dl := range append([]delivery{}, dels...) {
 					if dl.vt != nil && dl.ok {
@@ -937,8 +947,12 @@ func runC04(c *core.Ctx) {
 						dels = append(dels, dl)
 					}
 				}
-				mf := mustFail(t, v)
+				mf0 := mustFail(t, v)
 				for _, dl := range dels {
+					mf := mf0
+					if isOmit(dl) {
+						mf = t.K == world.TNonNull
+					}
 					if !dl.ok {
 						continue
 					}
@@ -959,6 +973,10 @@ func runC04(c *core.Ctx) {
 						varsCopy := deepCopy(dl.vars)
 						vm, _ := varsCopy.(map[string]interface{})
 						pi := core.Safe(func() {
+							if isWarm(dl) {
+								_ = root.ResolveString(fmt.Sprintf("{ %s(x: %s) }", field, validLit(t)), "", nil)
+								rec.invoked, rec.args = 0, nil
+							}
 							if !dl.prep {
 								res = root.ResolveString(dl.query, "", vm)
 								return
@@ -1006,6 +1024,14 @@ func runC04(c *core.Ctx) {
 						case rec.invoked == 0:
 							c.Outcome("over-rejected(allowed)")
 							c.Count("over_rejections")
+						case isOmit(dl):
+							if got != nil {
+								cs.Diff = fmt.Sprintf("the argument was not written, the resolver got %#v", got)
+								c.Outcome("nonconforming")
+								c.Violation("arg-nonconforming", attrs, cs)
+							} else {
+								c.Outcome("conforming")
+							}
 						default:
 							if s := conform(t, v, got); s != "" {
 								cs.Diff = s
